@@ -104,3 +104,5 @@ def run(ctx):
     ctx.layers["BC"] = {"rep_pairs": len(groups), "integral_instances": len(ii), "floating_path_instances": len(ff),
                         "conversions_swept": swept, "records_validated_by_TLC": nval, "configs": cfgs,
                         "predicted_non_compiling_skipped": len(skipped), "dropped": len(dropped)}
+    from .. import walks
+    walks.run(ctx, {"RepCast"}, "rep_cast inside chains of operations", seed_offset=5)
